@@ -92,6 +92,10 @@ TBetweenW(p, i) == IF i > p THEN {w \in Workers : p < w /\ w < i} ELSE {w \in Wo
 T_C04_SkipsOnlyUnavailable == (Observed /\ ~everFaulted) =>
   \A k \in 1..(Len(DL) - 1) :
      (Len(DL[k + 1][8]) = W) => \A w \in TBetweenW(DL[k][2], DL[k + 1][2]) : ~DL[k + 1][8][w + 1]
+\* AcceptDispatch.C04_SendOnlyToMarkedStep: a connection is sent to a worker whose availability bit was set when the rotation
+\* last looked (DL[k][9], measured at the turn yield point) - or to the worker in turn when no bit was set at all.  Holds
+\* with faults too: a re-routed connection goes through the rotation again
+T_C04_SendOnlyToMarked == Observed => \A k \in 1..Len(DL) : (Len(DL[k]) >= 9 => DL[k][9])
 T_C04_SaturatedGetsNothing == Observed =>
   /\ C02_Bound
   /\ ~everFaulted => \A k \in 1..Len(DL) : DL[k][4] <= Limit
